@@ -64,8 +64,12 @@ def check(inp):
             F.generate(F.inline_yaml(inp, out) if "decls" in inp else inp["yaml"], inp.get("args", []), out)
         except SystemExit as e:
             if e.code not in (0, None):
+                if "decls" not in inp:
+                    return "shroud exits with status %r on the upstream input %s %s" % (e.code, inp["yaml"], inp.get("args"))
                 return None
-        except Exception:
+        except Exception as e:
+            if "decls" not in inp:
+                return "shroud fails on the upstream input %s %s: %s: %s" % (inp["yaml"], inp.get("args"), type(e).__name__, str(e)[:150])
             return None
         names = sorted(os.listdir(out))
         fsrc = [n for n in names if n.endswith((".f", ".f90"))]
@@ -180,8 +184,10 @@ def core(skip=()):
 
 
 def candidates(seed, around=None):
-    for x in F.corpus():
-        yield x
     skip = [list(x) for x in ((around or {}).get("skip") or [])]
+    for x in F.corpus():
+        if [x["yaml"], "F_CFI=true" in x.get("args", [])] in skip:
+            continue          # recorded known finding: replayed separately by the check
+        yield x
     for x in core(skip):
         yield x
